@@ -52,6 +52,15 @@ Proof.
   - intro H. exists x. split; [assumption | now apply core_eqb_eq].
 Qed.
 
+Ltac split_andb :=
+  repeat match goal with H : _ && _ = true |- _ => apply andb_prop in H; destruct H end.
+Ltac bool2prop :=
+  repeat match goal with
+  | H : (_ =? _) = true |- _ => apply Z.eqb_eq in H
+  | H : Bool.eqb _ _ = true |- _ => apply eqb_prop in H
+  | H : core_eqb _ _ = true |- _ => apply core_eqb_eq in H
+  end.
+
 (* ---------- the reachable set, evaluated once ---------- *)
 Definition RC : list core := Eval vm_compute in reach_cores.
 Lemma RC_eq : RC = reach_cores.
@@ -59,9 +68,9 @@ Proof. vm_compute. reflexivity. Qed.
 
 Definition sweep (P : core -> auxv -> call -> bool) : bool :=
   forallb (fun s => forallb (fun v => forallb (fun c => P s v c) all_calls) all_auxv) RC.
-Lemma sweep_sound P : sweep P = true -> forall s v c, In s reach_cores -> P s v c = true.
+Lemma sweep_sound P : sweep P = true -> forall s v c, In s RC -> P s v c = true.
 Proof.
-  unfold sweep. intros H s v c Hs. rewrite <- RC_eq in Hs.
+  unfold sweep. intros H s v c Hs.
   rewrite forallb_forall in H. specialize (H s Hs).
   rewrite forallb_forall in H. specialize (H v (all_auxv_complete v)).
   rewrite forallb_forall in H. exact (H c (all_calls_complete c)).
@@ -70,33 +79,36 @@ Qed.
 (* closure *)
 Lemma reach_closed_sweep : sweep (fun s v c => core_mem (fst (cstep s v c)) RC) = true.
 Proof. vm_compute. reflexivity. Qed.
-Lemma reach_closed s v c : In s reach_cores -> In (fst (cstep s v c)) reach_cores.
+Lemma reach_closed s v c : In s RC -> In (fst (cstep s v c)) RC.
 Proof.
-  intro Hs. pose proof (sweep_sound _ reach_closed_sweep s v c Hs) as H. cbv beta in H.
-  apply core_mem_In in H. now rewrite RC_eq in H.
+  intro Hs. apply core_mem_In.
+  exact (sweep_sound (fun s v c => core_mem (fst (cstep s v c)) RC) reach_closed_sweep s v c Hs).
 Qed.
 
-Lemma closed_in_reach : In CClosed reach_cores.
-Proof. rewrite <- RC_eq. vm_compute. tauto. Qed.
+Lemma closed_in_reach : In CClosed RC.
+Proof. apply core_mem_In. vm_compute. reflexivity. Qed.
 
 Lemma co_step st c : co (fst (step st c)) = fst (cstep (co st) (view_aux (ax st)) c).
 Proof. unfold step. destruct (cstep (co st) (view_aux (ax st)) c). reflexivity. Qed.
 Lemma rc_step st c : snd (step st c) = snd (cstep (co st) (view_aux (ax st)) c).
 Proof. unfold step. destruct (cstep (co st) (view_aux (ax st)) c). reflexivity. Qed.
 
-Lemma run_in_reach cs : forall st, In (co st) reach_cores -> In (co (run st cs)) reach_cores.
+Lemma run_in_reach cs : forall st, In (co st) RC -> In (co (run st cs)) RC.
 Proof.
   induction cs as [|c r IH]; intros st H; cbn [run]; [assumption|].
   apply IH. rewrite co_step. now apply reach_closed.
 Qed.
-Lemma reachable_in_table cs : In (co (run state0 cs)) reach_cores.
+Lemma reachable_in_table cs : In (co (run state0 cs)) RC.
 Proof. apply run_in_reach. exact closed_in_reach. Qed.
 
 (* the auxiliary view never influences the core transition *)
 Lemma core_indep_sweep : sweep (fun s v c => core_eqb (fst (cstep s v c)) (cnext s c)) = true.
 Proof. vm_compute. reflexivity. Qed.
-Lemma core_indep s v c : In s reach_cores -> fst (cstep s v c) = cnext s c.
-Proof. intro Hs. apply core_eqb_eq. exact (sweep_sound _ core_indep_sweep s v c Hs). Qed.
+Lemma core_indep s v c : In s RC -> fst (cstep s v c) = cnext s c.
+Proof.
+  intro Hs. apply core_eqb_eq.
+  exact (sweep_sound (fun s v c => core_eqb (fst (cstep s v c)) (cnext s c)) core_indep_sweep s v c Hs).
+Qed.
 
 (* a closed handle has empty request queues and no attached buffer *)
 Lemma closed_aux0 cs : co (run state0 cs) = CClosed -> ax (run state0 cs) = aux0.
@@ -166,13 +178,12 @@ Proof.
   pose proof (sweep_sound _ mode_only_sweep (co st) (view_aux (ax st)) c (reachable_in_table cs)) as G.
   unfold chk_mode_only in G. rewrite Hc in G. rewrite co_step.
   destruct (co st) as [|o]; destruct (fst (cstep _ _ c)) as [|o']; try discriminate G; auto.
-  repeat (apply andb_prop in G; destruct G as [G ?]).
-  apply Z.eqb_eq in G, H3, H0, H. apply eqb_prop in H2.
-  repeat split; auto.
-  - intro Hs. rewrite Hs in H1. cbn [orb] in H1. apply andb_prop in H1. destruct H1 as [A B].
-    now apply Z.eqb_eq in A.
-  - intro Hs. rewrite Hs in H1. cbn [orb] in H1. apply andb_prop in H1. destruct H1 as [A B].
-    now apply Z.eqb_eq in B.
+  split_andb.
+  match goal with H : is_setfill c || _ = true |- _ => rename H into HS end.
+  bool2prop.
+  split; [assumption|]. split; [assumption|]. split; [assumption|]. split; [|split; assumption].
+  intro Hs. rewrite Hs in HS. cbn [orb] in HS. apply andb_prop in HS. destruct HS as [A B].
+  apply Z.eqb_eq in A, B. split; assumption.
 Qed.
 
 Example mode_changes_only_by_ex :
@@ -236,8 +247,7 @@ Proof.
   intros cs o H st.
   pose proof (sweep_sound _ close_sweep (co st) (view_aux (ax st)) Inq (reachable_in_table cs)) as G.
   unfold chk_close in G. unfold st in G at 1. rewrite H in G. fold st in G.
-  repeat (apply andb_prop in G; destruct G as [G ?]).
-  apply core_eqb_eq in G, H2. apply Z.eqb_eq in H1, H0.
+  split_andb. bool2prop.
   unfold step. destruct (cstep (co st) (view_aux (ax st)) Close) as [s1 r1].
   destruct (cstep (co st) (view_aux (ax st)) Abort) as [s2 r2]. cbn [fst snd] in *. subst s1 s2.
   unfold aux_step, state0. repeat split; assumption.
@@ -279,15 +289,12 @@ Proof.
   intros cs o H.
   pose proof (sweep_sound _ layers_sweep (COpen o) (mkV false false false false) Inq) as G.
   cbn [chk_layers] in G. rewrite <- H in G at 1. specialize (G (reachable_in_table cs)).
-  repeat (apply andb_prop in G; destruct G as [G ?]).
-  apply eqb_prop in G, H5, H4.
-  repeat split; auto.
-  - intro D. rewrite D in H6. cbn [orb] in H6. now apply eqb_prop in H6.
-  - intro O. rewrite O in H3. cbn in H3. now apply andb_prop in H3.
-  - intro O. rewrite O in H3. cbn in H3. apply andb_prop in H3. destruct H3 as [_ B]. now destruct (n_new o).
-  - intro N. rewrite N in H2. cbn in H2. exact H2.
-  - intro R. rewrite R in H1. cbn in H1. now destruct (d_def o).
-  - intro D. rewrite D in H0. cbn in H0. now destruct (n_indep o).
+  split_andb.
+  repeat match goal with
+  | H : Bool.eqb _ _ = true |- _ => apply eqb_prop in H
+  end.
+  destruct (d_def o), (n_def o), (d_indep o), (n_indep o), (d_ro o), (n_ro o), (d_fill o), (n_fill o),
+           (old o), (n_new o); cbn in *; try discriminate; repeat split; intros; try discriminate; reflexivity.
 Qed.
 
 Example layers_agree_ex : exists o, co (run state0 [Open true true false; Redef]) = COpen o /\ old o = true.
@@ -355,8 +362,8 @@ Theorem error_is_first_applicable_current :
   if FILL_VAR_REC_RETURNS_ERR then error_is_first_applicable_full else ~ error_is_first_applicable_full.
 Proof.
   destruct FILL_VAR_REC_RETURNS_ERR eqn:E.
-  - apply first_full_when_fixed. reflexivity.
-  - apply first_refuted_when_dropped. reflexivity.
+  - exact (first_full_when_fixed E).
+  - exact (first_refuted_when_dropped E).
 Qed.
 
 Example error_is_first_applicable_ex :
@@ -429,10 +436,10 @@ Theorem mode_transitions :
 Proof.
   intros cs c o o' H H' Hc Ho. set (st := run state0 cs) in *.
   pose proof (sweep_sound _ auto_sweep (co st) (view_aux (ax st)) c (reachable_in_table cs)) as G.
-  unfold chk_auto in G. rewrite co_step in H'. rewrite rc_step. rewrite H, H' in G. rewrite H.
+  unfold chk_auto in G. rewrite co_step in H'. rewrite rc_step. rewrite H in G, H' |- *. rewrite H' in G.
   destruct c; try (exfalso; eapply Hc; reflexivity); try (exfalso; eapply Ho; reflexivity);
     (destruct (w_mode (view_of o')); destruct (amode_next _ _ _); try discriminate G;
-     apply eqb_prop in G; split; [reflexivity | exact G]).
+     apply eqb_prop in G; (split; [reflexivity | exact G])).
 Qed.
 
 Theorem start_modes :
@@ -447,7 +454,7 @@ Theorem start_modes :
 Proof.
   intros cs c o' H H'. set (st := run state0 cs) in *.
   pose proof (sweep_sound _ auto_sweep (co st) (view_aux (ax st)) c (reachable_in_table cs)) as G.
-  unfold chk_auto in G. rewrite co_step in H'. rewrite H, H' in G.
+  unfold chk_auto in G. rewrite co_step in H'. rewrite H in G, H'. rewrite H' in G.
   destruct c; try discriminate G.
   - destruct (w_mode (view_of o')); try discriminate G. split; [reflexivity|]. now destruct (w_ro (view_of o')).
   - destruct (w_mode (view_of o')); try discriminate G. split; [reflexivity|]. now apply eqb_prop in G.
@@ -456,7 +463,7 @@ Qed.
 (* ================= T7 reachable_within_k ================= *)
 Fixpoint crun (s : core) (cs : list call) : core :=
   match cs with [] => s | c :: r => crun (cnext s c) r end.
-Lemma co_run_crun cs : forall st, In (co st) reach_cores -> co (run st cs) = crun (co st) cs.
+Lemma co_run_crun cs : forall st, In (co st) RC -> co (run st cs) = crun (co st) cs.
 Proof.
   induction cs as [|c r IH]; intros st H; cbn [run crun]; [reflexivity|].
   rewrite IH.
@@ -466,6 +473,8 @@ Qed.
 
 Definition RT : list (core * list call) := Eval vm_compute in reach_table.
 Lemma RT_eq : RT = reach_table.
+Proof. vm_compute. reflexivity. Qed.
+Lemma RC_RT : RC = map fst RT.
 Proof. vm_compute. reflexivity. Qed.
 Lemma table_paths_ok :
   forallb (fun p : core * list call =>
@@ -478,7 +487,7 @@ Theorem reachable_within_k :
       (length cs' <= REACH_K)%nat /\ co (run state0 cs') = co (run state0 cs).
 Proof.
   intro cs. pose proof (reachable_in_table cs) as H.
-  unfold reach_cores in H. rewrite <- RT_eq in H. apply in_map_iff in H. destruct H as [[s p] [E Hin]].
+  rewrite RC_RT in H. apply in_map_iff in H. destruct H as [[s p] [E Hin]].
   cbn [fst] in E. pose proof table_paths_ok as T. rewrite forallb_forall in T. specialize (T _ Hin).
   cbn [fst snd] in T. apply andb_prop in T. destruct T as [L C]. apply Nat.leb_le in L. apply core_eqb_eq in C.
   exists p. split; [exact L|].
@@ -495,7 +504,7 @@ Proof.
   - vm_compute. reflexivity.
 Qed.
 Lemma reach_count : length reach_cores = 97%nat.
-Proof. vm_compute. reflexivity. Qed.
+Proof. rewrite <- RC_eq. vm_compute. reflexivity. Qed.
 
 (* ================= tie of the model to the source structure (Gen_modes.v) ================= *)
 (* the order in which the C functions test for the error codes the model uses *)
